@@ -142,6 +142,7 @@ def create_template_environment(
     env.globals["get_matching_impls"] = get_matching_impls
     env.globals["get_struct_from_type"] = get_struct_from_type
     env.globals["encode_version"] = encode_version
+    env.globals["to_highest_power_of_two"] = _to_highest_power_of_two
     env.filters["to_pascal_case"] = to_pascal_case
 
     return env
